@@ -54,6 +54,15 @@ class C20(Prop):
                 items = [[q + 1, p[q]] for q in range(n) if p[q] != 0]
                 rng.shuffle(items)
                 yield {"k": "parsedict", "n": n, "items": items}
+        # printing of maps and states (model drift only): the identity and a signed CNOT-like map, tableaux of every rank
+        for n in (1, 2, 3, 10):
+            idm = [[(1 if j % 2 == 0 else 3) if q == j // 2 else 0 for q in range(n)] + [0] for j in range(2 * n)]
+            yield {"k": "maprepr", "m": idm}
+            if n == 2:
+                yield {"k": "maprepr", "m": [[1, 1, 2], [3, 0, 0], [0, 1, 0], [3, 3, 2]]}
+            for r in range(min(n, 3) + 1):
+                rows = [w for j, w in enumerate(idm) if j % 2 == 1] + [w for j, w in enumerate(idm) if j % 2 == 0]
+                yield {"k": "staterepr", "rows": [w[:-1] + [2 * ((i + r) % 2)] for i, w in enumerate(rows)], "r": r}
         for L in (1, 5, 50, 100, 101, 150):
             yield {"k": "listrepr", "ops": [[rng.randrange(4) for _ in range(3)] + [rng.randrange(4)] for _ in range(L)]}
         # registers across the 64-bit word boundary
@@ -124,6 +133,26 @@ class C20(Prop):
                 txt = repr(x)
                 rec["text"] = text_tokens(txt)
                 rec["back"] = be.p_pauli(P.pauli(txt))
+            elif k in ("maprepr", "staterepr"):
+                if k == "maprepr":
+                    rec["m"] = scn["m"]
+                    obj = be.cmap(scn["m"])
+                else:
+                    rec["pre"] = {"rows": scn["rows"], "r": scn["r"]}
+                    obj = be.state(scn["rows"], scn["r"])
+                txt = repr(obj)
+                rec["text"] = txt if len(txt) < 40 else ""
+                parts = txt.split("\n")
+                rec["head"], rec["tail"] = parts[0], txt[-1:]
+                lines = []
+                for ln in parts[1:]:
+                    if ln.endswith(")") and ln is parts[-1]:
+                        ln = ln[:-1]
+                    pre, sep, rest = ln.partition("->")
+                    if not sep:           # states: two blanks of indentation, then the printed operator
+                        pre, rest = ln[:2], ln[2:]
+                    lines.append({"pre": pre, "toks": text_tokens(rest)})
+                rec["lines"] = lines
             elif k == "listrepr":
                 rec["ops"] = scn["ops"]
                 rec["lines"] = [text_tokens(ln) for ln in repr(be.plist(scn["ops"])).split("\n")]
